@@ -25,6 +25,8 @@ const WIDE: [char; 44] = [
 ];
 
 fn t_span(o: Option<std::ops::Range<usize>>) -> Tree { opt(o, |r| L(vec![iu(r.start), iu(r.end)])) }
+fn t_span_r(o: Option<Option<std::ops::Range<usize>>>) -> Tree { match o { Some(x) => t_span(x), None => panic() } }
+fn t_text_r(o: Option<Option<String>>) -> Tree { match o { Some(x) => opt(x, |x| chars(&x)), None => panic() } }
 fn t_pos(o: Option<(usize, usize)>) -> Tree { match o { Some((l, c)) => L(vec![iu(l), iu(c)]), None => panic() } }
 
 /// White_Space, written out (not `char::is_whitespace`, which is what `trim` uses)
@@ -91,8 +93,8 @@ fn scan(ctx: &Ctx, shard: usize, s: &str) -> (i64, i64) {
     let si = SourceInfo::new(s);
     let nl = si.count_lines() + 2;
     let ni = s.len() + 11;
-    let spans = list(0..nl, |l| t_span(catch(|| si.line_span(l)).unwrap_or(Some(usize::MAX..usize::MAX))));
-    let texts = list(0..nl, |l| opt(catch(|| si.read_line(l).map(|x| x.to_string())).unwrap_or(Some("\u{0}PANIC".into())), |x| chars(&x)));
+    let spans = list(0..nl, |l| t_span_r(catch(|| si.line_span(l))));
+    let texts = list(0..nl, |l| t_text_r(catch(|| si.read_line(l).map(|x| x.to_string()))));
     let poss = list(0..ni, |x| t_pos(catch(|| si.get_pos_pair(x))));
     ctx.case_to(shard, "srcinfo.scan", &L(vec![chars(s), iu(nl), iu(ni)]), &L(vec![iu(si.count_lines()), spans, texts, poss]));
     let lines: Vec<usize> = (0..nl).collect();
@@ -106,9 +108,8 @@ fn single(ctx: &Ctx, s: &str, lines: &[usize], idxs: &[usize]) {
     let si = SourceInfo::new(s);
     ctx.case("srcinfo.count_lines", &chars(s), &iu(si.count_lines()));
     for &l in lines {
-        ctx.case("srcinfo.line_span", &L(vec![chars(s), iu(l)]), &t_span(catch(|| si.line_span(l)).unwrap_or(Some(usize::MAX..usize::MAX))));
-        ctx.case("srcinfo.read_line", &L(vec![chars(s), iu(l)]),
-            &opt(catch(|| si.read_line(l).map(|x| x.to_string())).unwrap_or(Some("\u{0}PANIC".into())), |x| chars(&x)));
+        ctx.case("srcinfo.line_span", &L(vec![chars(s), iu(l)]), &t_span_r(catch(|| si.line_span(l))));
+        ctx.case("srcinfo.read_line", &L(vec![chars(s), iu(l)]), &t_text_r(catch(|| si.read_line(l).map(|x| x.to_string()))));
     }
     for &x in idxs {
         ctx.case("srcinfo.get_pos_pair", &L(vec![chars(s), iu(x)]), &t_pos(catch(|| si.get_pos_pair(x))));
